@@ -361,7 +361,8 @@ class ScopeFn(ScopeBase):
             self.defined.update(node.names)
 
         for n in self.seen:
-            if n.name in node.names:
+            # a use in a nested scope isn't a use in this one
+            if n.name in node.names and not n.inherited:
                 raise SyntaxError(
                     f"name '{n.name}' is declared {root} after being used"
                 )
